@@ -17,6 +17,7 @@ and `Lockset.pairOk`; the monitor is "no data race reported".
 import KafkaVerif.Base.Proto
 import KafkaVerif.Model.Lockset
 import KafkaVerif.Gen.Accesses
+import KafkaVerif.Gen.Skeletons
 
 namespace KV.OracleC10
 open KV KV.Lockset
@@ -61,6 +62,91 @@ def step (line : String) : String :=
     | _ => "model=? holds=0"
   | _ => "model=? holds=0"
 
+/-! ## lock facts: entry-lockset fixpoint and the table rows the verified analysis does not justify
+
+`oracle_c10 lockfacts` prints `Gen/LockFacts.lean`.  Nothing here is trusted: the kernel re-checks the printed
+entry locksets with `entryOkB` and the justification of every table row outside the printed list. -/
+
+open KV.LockProg in
+/-- one refinement round: every entry lockset is intersected with the locksets found at its call sites -/
+def refineOnce (entry : List LS) : List LS × Bool :=
+  let get (i : Nat) : LS := entry.getD i []
+  let sites : List (Nat × LS) := Gen.skeletons.flatMap fun p => (an (getL Gen.skRel) p.2 (get p.1)).calls
+  let next := (List.range entry.length).map fun f =>
+    sites.foldl (fun acc c => if c.1 == f then meet acc c.2 else acc) (get f)
+  (next, next.zip entry |>.all fun p => p.1.length == p.2.length)
+
+open KV.LockProg in
+partial def refineEntry (entry : List LS) (fuel : Nat) : List LS :=
+  match fuel with
+  | 0 => entry.map fun _ => []
+  | fuel + 1 =>
+    let (next, stable) := refineOnce entry
+    if stable then next else refineEntry next fuel
+
+def showHold (h : Hold) : String := s!"⟨{h.m}, {if h.mode == .excl then ".excl" else ".shared"}⟩"
+def showLS (l : List Hold) : String := "[" ++ ", ".intercalate (l.map showHold) ++ "]"
+
+/-- the heap-indexed trie literal (same layout as the extractor's) -/
+partial def showTrie (n mul add : Nat) (val : Nat → String) : String :=
+  if add ≥ n then ".nil"
+  else s!"(.node (some {val add}) {showTrie n (2 * mul) (mul + add) val} {showTrie n (2 * mul) (2 * mul + add) val})"
+
+/-- mark every interface-call site with a pseudo access `1000000 + f` so that the analysis reports its lockset -/
+def markIcalls : KV.LockProg.Cmd → KV.LockProg.Cmd
+  | .icall f => .seq (.acc (1000000 + f)) (.icall f)
+  | .seq a b => .seq (markIcalls a) (markIcalls b)
+  | .alt a b => .alt (markIcalls a) (markIcalls b)
+  | .loop a => .loop (markIcalls a)
+  | .block a => .block (markIcalls a)
+  | .spawn a => .spawn (markIcalls a)
+  | c => c
+
+/-- trie literal with holes -/
+partial def showTrieOpt (n mul add : Nat) (val : Nat → Option String) : String :=
+  if add ≥ n then ".nil"
+  else
+    let v := match val add with | some s => s!"(some {s})" | none => "none"
+    s!"(.node {v} {showTrieOpt n (2 * mul) (mul + add) val} {showTrieOpt n (2 * mul) (2 * mul + add) val})"
+
+open KV.LockProg in
+def lockFacts : String :=
+  let n := Gen.skeletons.length
+  let entry0 := (List.range n).map fun i => getLS Gen.skEntry i
+  let entry := refineEntry entry0 (n + 5)
+  let getE (i : Nat) : LS := entry.getD i []
+  let rows : List (Nat × LS) := Gen.skeletons.flatMap fun p => (an (getL Gen.skRel) p.2 (getE p.1)).rows
+  let arr := rows.toArray
+  -- rows come out in ascending occurrence order (the extractor numbers them in analysis order)
+  let lookup (k : Nat) : List LS := (rows.filter fun r => r.1 == k).map (·.2)
+  let _ := arr
+  let unj := Gen.accesses.filter fun a =>
+    let real := realLocks Gen.tokenIds a
+    !(real.isEmpty || Gen.exemptOcc.contains a.site ||
+      (let ls := lookup a.site; !ls.isEmpty && ls.all fun L => subB real L))
+  let unjOcc := (unj.map (·.site)).eraseDups
+  let maxOcc := rows.foldl (fun m r => max m r.1) 0
+  -- interface-call sites at which the `icall` restriction matters: the candidate may release a mutex held there
+  let marked : List (Nat × LS) := Gen.skeletons.flatMap fun p => (an (getL Gen.skRel) (markIcalls p.2) (getE p.1)).rows
+  let isites := marked.filter fun r => r.1 ≥ 1000000
+  let idep := isites.filter fun r => (getL Gen.skRel (r.1 - 1000000)).any fun m => r.2.any fun x => x.m == m
+  let lowered := (List.range n).filter fun i => (getE i).length != (getLS Gen.skEntry i).length
+  "/-\nGen/LockFacts.lean — GENERATED by `oracle_c10 lockfacts` (compiled Lean) from Gen/Skeletons.lean and Gen/Accesses.lean. DO NOT EDIT.\n" ++
+  "Untrusted hints: the kernel re-checks `skEntryR` with entryOkB and justifies every table row not listed here.\n-/\n" ++
+  "import KafkaVerif.Model.LockProg\n\nnamespace KV.Gen\nopen KV.Lockset KV.LockProg\n\n" ++
+  "/-- entry locksets after the fixpoint `entry f ⊆ lockset at every call site of f` (starting from the extractor's) -/\n" ++
+  s!"def skEntryR : Trie LS :=\n  {showTrie n 1 0 (fun i => showLS (getE i))}\n\n" ++
+  "/-- skeletons whose entry lockset the fixpoint lowered below the extractor's claim -/\n" ++
+  s!"def loweredEntries : List Nat := {lowered}\n\n" ++
+  "/-- table rows (by site) whose locks the verified analysis does NOT re-derive: they stay on the extractor's dataflow -/\n" ++
+  s!"def unjustifiedOcc : List Nat := {unjOcc}\n\n" ++
+  "/-- interface-call candidate sites, and those where the candidate may release a mutex (type) held at the site, i.e. where the `icall` restriction is actually used -/\n" ++
+  s!"def icallSites : Nat := {isites.length}\ndef icallSitesUsingRestriction : Nat := {idep.length}\n\n" ++
+  "/-- the rows of the analysis, indexed by site (checked against `allRows` by the kernel) -/\n" ++
+  s!"def skRowsT : Trie LS :=\n  {showTrieOpt (maxOcc + 1) 1 0 (fun i => (rows.find? fun r => r.1 == i).map fun r => showLS r.2)}\n\nend KV.Gen\n"
+
 end KV.OracleC10
 
-def main : IO Unit := KV.runOracle () (fun _ l => ((), KV.OracleC10.step l))
+def main (args : List String) : IO Unit :=
+  if args == ["lockfacts"] then IO.print KV.OracleC10.lockFacts
+  else KV.runOracle () (fun _ l => ((), KV.OracleC10.step l))
